@@ -159,7 +159,7 @@ fn run_job(job: &Value) -> Value {
         let mut s = String::new();
         if let Ok(f) = std::fs::File::open(out_dir.join(n)) {
             let mut b = Vec::new();
-            let _ = Read::take(f, 262144).read_to_end(&mut b);
+            let _ = Read::take(f, if n == "stdout" { 8 << 20 } else { 262144 }).read_to_end(&mut b);
             s = String::from_utf8_lossy(&b).to_string();
         }
         s
